@@ -1,3 +1,4 @@
+\* as-found switch, crash inside the marker window: CrashStateOK counterexample EXPECTED (finding C07-1 / seeds fixrev-C07-marker-*)
 CONSTANTS
  Scenarios <- Populated
  MaxCrash = 1
